@@ -62,7 +62,7 @@ func c02Exec(c *pcase) (*core.Finding, bool) {
 	if n != len(f1) {
 		return mk("not-one-frame", fmt.Sprintf("WriteTo emitted %d bytes, the frame is %d bytes", len(f1), n)), true
 	}
-	if diff := spec.Diff(spec.Normalise(p), spec.Normalise(d)); len(diff) > 0 {
+	if diff := spec.Diff(spec.Normalise(gen.WireView(p)), spec.Normalise(d)); len(diff) > 0 {
 		return mk("value:"+diffClass(diff), fmt.Sprintf("reading the frame by the specification gives other values than were set: %s (frame %s)", strings.Join(clipList(diff, 4), "; "), abbrevHex(f1))), true
 	}
 	return nil, true
